@@ -105,11 +105,12 @@ def run(ctx):
             bad["pvalues"] = [str(x) for x in v]
             ctx.violation("oracle", bad, site="adjust_p")
     # unknown method names raise ValueError
-    for name in ("nonsense", "holm", "", "Bonferroni"):
-        r = guarded(npc.adjust_p, np.array([0.1, 0.2]), name)
-        ctx.case(("badmethod", name), True); ctx.count("unknown-method")
-        if not (r[0] == "exc" and r[1] == "ValueError"):
-            ctx.violation("oracle", {"issue": "unknown method not rejected with ValueError", "method": name, "returned": r[1:]}, site="adjust_p")
+    for name in ("nonsense", "holm", "", "Bonferroni", "bonferonni", "BH"):
+        for vec in ([0.3], [0.1, 0.2], [0.5, 0.5, 0.01], [0.0, 1.0, 0.2, 0.2]):
+            r = guarded(npc.adjust_p, np.array(vec), name)
+            ctx.case(("badmethod", name, len(vec)), True); ctx.count("unknown-method")
+            if not (r[0] == "exc" and r[1] == "ValueError"):
+                ctx.violation("oracle", {"issue": "unknown method not rejected with ValueError", "method": name, "pvalues": [str(v) for v in vec], "returned": str(r[1:])[:200]}, site="adjust_p")
     outs = run_model(ops)
     agree = True
     for o, (m, exact, out) in zip(outs, meta):
